@@ -32,7 +32,7 @@ var pkgLine = regexp.MustCompile(`^# (\S+)`)
 // BuildErrors compiles the packages matching pattern and returns the compiler
 // output per failing package (import path -> messages).
 func BuildErrors(dir, pattern string) (map[string]string, error) {
-	_, stderr, err := goCmd(dir, "build", "-gcflags=-e", pattern)
+	_, stderr, err := goCmd(dir, "build", "-trimpath", "-gcflags=-e", pattern)
 	out := map[string]string{}
 	if err == nil {
 		return out, nil
@@ -84,7 +84,7 @@ func RunMain(dir, modPath string, pkgs []string) ([]Report, error) {
 	if err := os.WriteFile(filepath.Join(mainDir, "main.go"), []byte(b.String()), 0o644); err != nil {
 		return nil, err
 	}
-	stdout, stderr, err := goCmd(dir, "run", "./cmd/verifmain")
+	stdout, stderr, err := goCmd(dir, "run", "-trimpath", "./cmd/verifmain")
 	if err != nil {
 		return nil, fmt.Errorf("go run ./cmd/verifmain: %v\n%s", err, tail(string(stderr), 3000))
 	}
@@ -265,6 +265,46 @@ func Mutate(v reflect.Value) int {
 		v.SetMapIndex(k, reflect.New(v.Type().Elem()).Elem()) // insert zero key
 	}
 	return n
+}
+
+// CheckDoc calls RuntimeDoc(names...) on ptr and compares with the expectation.
+func CheckDoc(checks *int, fails *[]string, label string, ptr any, names []string, want []string, wantOK bool) {
+	*checks++
+	d, ok := ptr.(interface {
+		RuntimeDoc(names ...string) ([]string, bool)
+	})
+	if !ok {
+		*fails = append(*fails, label+": no RuntimeDoc method")
+		return
+	}
+	defer func() {
+		if r := recover(); r != nil {
+			*fails = append(*fails, fmt.Sprintf("%s: RuntimeDoc(%q) panicked: %v", label, names, r))
+		}
+	}()
+	got, gotOK := d.RuntimeDoc(names...)
+	same := gotOK == wantOK && len(got) == len(want)
+	if same {
+		for i := range got {
+			if got[i] != want[i] {
+				same = false
+			}
+		}
+	}
+	if !wantOK && gotOK == false && len(got) == 0 {
+		same = true
+	}
+	if !same {
+		*fails = append(*fails, fmt.Sprintf("%s: RuntimeDoc(%q) = (%q, %v), want (%q, %v)", label, names, got, gotOK, want, wantOK))
+	}
+}
+
+// HasRuntimeDoc reports whether ptr has the method at all.
+func HasRuntimeDoc(ptr any) bool {
+	_, ok := ptr.(interface {
+		RuntimeDoc(names ...string) ([]string, bool)
+	})
+	return ok
 }
 
 // CheckDeepCopy exercises the generated DeepCopy of the value ptr points to.
